@@ -95,6 +95,11 @@ QInts(g) ==
 QBools(g) ==
   UNION { { Ent("has_node", t, TRUE, <<>>, n, 0, "bool", n \in MNodesAt(g, t)) : n \in g.nodes } : t \in QTimes }
   \cup { Ent("dn_is_empty", NoT, TRUE, <<>>, 0, 0, "bool", DOMAIN g.tl = {}) }
+  \cup (IF g.dir THEN
+        UNION { UNION { { Ent("has_successor", t, TRUE, <<>>, n, m, "bool", Pres(g, n, m, t)),
+                          Ent("has_predecessor", t, TRUE, <<>>, n, m, "bool", Pres(g, m, n, t)) }
+                        : m \in g.nodes \cup {Unknown} } : <<n, t>> \in g.nodes \X QTimes }
+        ELSE {})
 
 QModel(g) == SetToSeq(QPairs(g)) \o SetToSeq(QNodes(g)) \o SetToSeq(QInts(g)) \o SetToSeq(QBools(g))
 
